@@ -367,6 +367,22 @@ fn malformed_menu(server: bool, thorough: bool) -> Vec<(u32, u8, Vec<u8>)> {
         v.push((1, t, vec![]));
         v.push((1, t, vec![0xAF, 1, 2]));
     }
+    // metadata: every key the sessions map, with values of every kind (numbers of either sign and NaN, short and
+    // empty strings, containers) - the mapping must return for all of them
+    {
+        let keys = ["width", "height", "videocodecid", "videodatarate", "framerate", "audiocodecid", "audiodatarate", "audiosamplerate", "audiochannels", "stereo", "encoder"];
+        let vals: Vec<V> = vec![s("mp3"), s(""), s("avc1"), s("\u{e9}"), V::Null, V::Undef, V::Bool(true), num(f64::NAN), num(-1.0), num(1e300), num(4294967296.0), V::Obj(vec![]), V::Arr(vec![num(1.0)])];
+        for k in keys.iter() {
+            for val in vals.iter() {
+                let o = V::Obj(vec![(k.to_string(), val.clone()), ("duration".into(), num(0.0))]);
+                if server {
+                    v.push((1, 18, enc(&[s("@setDataFrame"), s("onMetaData"), o.clone()])));
+                } else {
+                    v.push((1, 18, enc(&[s("onMetaData"), o.clone()])));
+                }
+            }
+        }
+    }
     // long non-ASCII text in every string position a session looks at (every fixed cut offset falls inside a
     // character in one of them): application names, stream keys, modes, status codes, metadata strings
     for text in super::amf0::straddlers() {
